@@ -38,6 +38,17 @@ __all_classes__ = ["Form", "BaseForm", "ZeroBaseForm"]
 # --- The Form class, representing a complete variational form or functional ---
 
 
+def _argument_sort_key(argument):
+    """Sort key for the arguments of a form: number, then part.
+
+    Arguments on a ``MixedFunctionSpace`` share the number and differ in the
+    part; without the part in the key their order is the (hash seed and id
+    dependent) iteration order of a set.
+    """
+    part = argument.part()
+    return (argument.number(), -1 if part is None else part)
+
+
 def _sorted_integrals(integrals: typing.Iterable[Integral]) -> tuple[Integral, ...]:
     """Sort integrals for a stable signature computation.
 
@@ -666,7 +677,7 @@ class Form(BaseForm):
         arguments, coefficients, geometric_quantities = extract_terminals_with_domain(self)
 
         # Define canonical numbering of arguments and coefficients
-        self._arguments = tuple(sorted(set(arguments), key=lambda x: x.number()))
+        self._arguments = tuple(sorted(set(arguments), key=_argument_sort_key))
         self._coefficients = tuple(sorted(set(coefficients), key=lambda x: x.count()))
         self._geometric_quantities = geometric_quantities  # sorted by (type, domain)
 
@@ -806,7 +817,7 @@ class FormSum(BaseForm):
             arguments.extend(component.arguments())
             coefficients.extend(component.coefficients())
         # Define canonical numbering of arguments and coefficients
-        self._arguments = tuple(sorted(set(arguments), key=lambda x: x.number()))
+        self._arguments = tuple(sorted(set(arguments), key=_argument_sort_key))
         self._coefficients = tuple(sorted(set(coefficients), key=lambda x: x.count()))
 
     def _analyze_domains(self):
